@@ -25,7 +25,7 @@ package agreement
 //   b  verified bad r p s value s:w,..|- s:w:p0:p1,..|-   bundle{Present,Verified}
 //   t entropy | ft entropy | ri round | ck r p s err   timeout, fast timeout, round interruption, checkpoint
 //   dump                                               canonical dump of the whole live (player, router)
-//   persist msgp|reflect                               REAL encode + decode; prints the decoded (actions, player, router);
+//   persist msgp|reflect act|noact                     REAL encode + decode (noact: empty action list); prints the decoded (actions, player, router);
 //                                                      the decoded router becomes the "shadow" that receives every later event too
 //   bad: 0 ok, 1 Err set, 2 Cancelled, 3 Proto.Err set
 // Result line:  <actions> | <player>  ||  <shadow actions | shadow player, or ->   [## c03=…  when an ensure was emitted]
@@ -35,6 +35,8 @@ import (
 	"encoding/binary"
 	"fmt"
 	"io"
+	"os"
+	"runtime/debug"
 	"sort"
 	"strconv"
 	"strings"
@@ -232,18 +234,35 @@ func verifPlPanic(r interface{}) string {
 			msg = s
 		}
 	}
+	// A Panicf inside a state machine is often masked by a second panic of a deferred tracer call
+	// (voteAggregator.handle defers logVoteAggregatorResult(e, nil)): classify by the ORIGINAL panic site on the stack.
+	st := strings.Split(string(debug.Stack()), "\n")
+	origin := ""
+	for i, l := range st {
+		if strings.Contains(l, "logging.logger.Panicf(") || strings.Contains(l, "logging.logger.Panic(") {
+			if i+2 < len(st) {
+				origin = st[i+2]
+			}
+		}
+	}
 	switch {
+	case strings.Contains(origin, "checkedListener"):
+		return "PANIC contract"
+	case strings.Contains(origin, "voteTracker") || strings.Contains(origin, "makeBundle"):
+		return "PANIC tracker"
+	case strings.Contains(origin, "proposalStore"):
+		return "PANIC assemblers"
+	case strings.Contains(origin, "voteAggregator"):
+		return "PANIC badround"
+	case origin != "":
+		return "PANIC other-panicf " + strings.TrimSpace(origin)
+	}
+	all := strings.Join(st, " ")
+	switch {
+	case strings.Contains(msg, "index out of range") || strings.Contains(all, "index out of range"):
+		return "PANIC tracker"
 	case strings.Contains(msg, "nil pointer dereference"):
 		return "PANIC nil"
-	case strings.Contains(msg, "precondition violated"), strings.Contains(msg, "postcondition violated"):
-		return "PANIC contract"
-	case strings.Contains(msg, "too many equivocators"), strings.Contains(msg, "more than value reached"), strings.Contains(msg, "index out of range"),
-		strings.Contains(msg, "no votes present"), strings.Contains(msg, "invalid vote passed"), strings.Contains(msg, "not enough votes"):
-		return "PANIC tracker"
-	case strings.Contains(msg, "too many assemblers"):
-		return "PANIC assemblers"
-	case strings.Contains(msg, "bad round"):
-		return "PANIC badround"
 	case strings.Contains(msg, "interface conversion"):
 		return "PANIC cast"
 	}
@@ -266,6 +285,7 @@ type verifPlExec struct {
 	delivered map[string]uint64 // r.p.s.sender.value -> weight of votes delivered as verified
 	nEnsure   int
 	nPersist  int
+	idxMap    map[uint64]uint64 // TaskIndex handed out by the live machine -> the one the shadow handed out for the same votePresent
 }
 
 func (x *verifPlExec) certStr(b unauthenticatedBundle) string {
@@ -764,6 +784,9 @@ func (x *verifPlExec) runOne(m **verifPlMachine, e event) (res string, acts []ac
 	defer func() {
 		if r := recover(); r != nil {
 			res = verifPlPanic(r)
+			if os.Getenv("VERIF_PLAYER_DEBUG") != "" {
+				fmt.Fprintf(os.Stderr, "PANIC %v\n%s\n", r, debug.Stack())
+			}
 			acts = nil
 			*m = nil
 		}
@@ -773,6 +796,15 @@ func (x *verifPlExec) runOne(m **verifPlMachine, e event) (res string, acts []ac
 	return x.actsStr(as) + " | " + x.playerStr(p), as
 }
 
+func verifPlTaskIndex(as []action) (uint64, bool) {
+	for _, a := range as {
+		if c, ok := a.(cryptoAction); ok && c.T == verifyVote {
+			return c.TaskIndex, true
+		}
+	}
+	return 0, false
+}
+
 // C03 monitor on the REAL ensure action: the structural conditions of Certificate.Authenticate
 func (x *verifPlExec) c03(a ensureAction) string {
 	c := a.Certificate
@@ -780,7 +812,7 @@ func (x *verifPlExec) c03(a ensureAction) string {
 		return "BAD:step"
 	}
 	blk := a.Payload.Block
-	if !c.claimsToAuthenticate(blk) {
+	if c.claimsToAuthenticate(blk) != nil {
 		return "BAD:claimsToAuthenticate"
 	}
 	if c.Round != blk.Round() || c.Proposal.BlockDigest != blk.Digest() {
@@ -861,16 +893,21 @@ func (x *verifPlExec) exec(op string) string {
 		return vh.Catch(func() string {
 			reflect := f[1] == "reflect"
 			clock := timers.MakeMonotonicClock[TimeoutType](time.Date(2015, 1, 2, 5, 6, 7, 8, time.UTC))
-			raw := encode(clock, *x.live.router, x.live.plyr, x.last, reflect)
+			acts := x.last
+			if len(f) > 2 && f[2] == "noact" {
+				acts = nil
+			}
+			raw := encode(clock, *x.live.router, x.live.plyr, acts, reflect)
 			t0 := timers.MakeMonotonicClock[TimeoutType](time.Date(2000, 0, 0, 0, 0, 0, 0, time.UTC))
 			clock2, rr2, p2, a2, err := decode(raw, t0, makeServiceLogger(logging.Base()), reflect)
 			if err != nil {
 				return "PERSIST-DIFF decode error " + err.Error()
 			}
 			x.nPersist++
-			liveView := "A[" + x.actsStr(x.last) + "] " + x.dumpStr(x.live.plyr, x.live.router, true)
+			liveView := "A[" + x.actsStr(acts) + "] " + x.dumpStr(x.live.plyr, x.live.router, true)
 			decoded := "A[" + x.actsStr(a2) + "] " + x.dumpStr(p2, &rr2, true)
 			x.shadow = &verifPlMachine{router: &rr2, plyr: p2}
+			x.idxMap = map[uint64]uint64{}
 			if clock2 == nil || string(clock2.Encode()) != string(clock.Encode()) {
 				return "PERSIST-DIFF clock " + decoded
 			}
@@ -888,7 +925,22 @@ func (x *verifPlExec) exec(op string) string {
 	x.last = as
 	out2 := "-"
 	if x.shadow != nil {
-		out2, _ = x.runOne(&x.shadow, e)
+		// the shadow gets its own event object; a verified proposal-vote carries the TaskIndex the SHADOW handed out
+		f2 := append([]string{}, f...)
+		if f[0] == "pv" && f[1] == "1" {
+			if j, ok := x.idxMap[vh.U(f[8])]; ok {
+				f2[8] = strconv.FormatUint(j, 10)
+			}
+		}
+		var as2 []action
+		out2, as2 = x.runOne(&x.shadow, x.event(f2))
+		if f[0] == "pv" && f[1] == "0" {
+			i1, ok1 := verifPlTaskIndex(as)
+			i2, ok2 := verifPlTaskIndex(as2)
+			if ok1 && ok2 {
+				x.idxMap[i1] = i2
+			}
+		}
 	}
 	res := out + " || " + out2
 	for _, a := range as {
@@ -915,6 +967,7 @@ type verifPlGen struct {
 	props  map[[2]uint64][]uint64 // (round, period) -> proposed values, lowest credential first
 	known  map[uint64][]uint64 // round -> values used
 	nextCr int
+	qval   map[[3]uint64]uint64 // (round, period, step) -> value the "network" votes for
 }
 
 func (g *verifPlGen) emit(line string) {
@@ -992,6 +1045,11 @@ func (g *verifPlGen) bad() uint64 {
 // votes of step s for value v crossing the threshold (or stopping `short` senders early)
 func (g *verifPlGen) quorumLines(r, p, s, v uint64, short int) []string {
 	var lines []string
+	if q, ok := g.qval[[3]uint64{r, p, s}]; ok && q != v && g.rng.Chance(85) {
+		v = q // an honest majority does not form two quorums in one step
+	} else if !ok {
+		g.qval[[3]uint64{r, p, s}] = v
+	}
 	var sum uint64
 	order := g.perm()
 	extra := g.rng.Intn(2)
@@ -1010,12 +1068,25 @@ func (g *verifPlGen) quorumLines(r, p, s, v uint64, short int) []string {
 			lines = append(lines, fmt.Sprintf("v 0 0 %d %d %d %d %d %d", r, p, s, sender, g.w[i], v))
 		}
 		lines = append(lines, fmt.Sprintf("v 1 %d %d %d %d %d %d %d", g.bad(), r, p, s, sender, g.w[i], v))
-		if g.rng.Chance(6) { // equivocation pair
+		if g.rng.Chance(3) { // equivocation pair
 			lines = append(lines, fmt.Sprintf("v 1 0 %d %d %d %d %d %d", r, p, s, sender, g.w[i], g.someOther(r, p, v)))
 		}
 		sum += g.w[i]
 	}
 	return lines
+}
+
+// the value a quorum of step s forms around: mostly one per (r, p, s), as with an honest majority
+func (g *verifPlGen) quorumValue(r, p, s uint64, pick func() uint64) uint64 {
+	k := [3]uint64{r, p, s}
+	if v, ok := g.qval[k]; ok && g.rng.Chance(90) {
+		return v
+	}
+	v := pick()
+	if _, ok := g.qval[k]; !ok {
+		g.qval[k] = v
+	}
+	return v
 }
 
 func (g *verifPlGen) someOther(r, p, v uint64) uint64 {
@@ -1201,10 +1272,11 @@ func (g *verifPlGen) oneCase(malformed bool, maxEvents int) {
 	n := 4 + rg.Intn(4)
 	g.w = make([]uint64, n)
 	g.total = 0
+	scale := []uint64{1, 1, 10, 1000}[rg.Intn(4)]
 	for i := range g.w {
-		g.w[i] = uint64(1 + rg.Intn(4))
-		if rg.Chance(30) {
-			g.w[i] *= 10
+		g.w[i] = uint64(1+rg.Intn(4)) * scale
+		if rg.Chance(4) {
+			g.w[i] *= 5 // a whale
 		}
 		g.total += g.w[i]
 	}
@@ -1223,6 +1295,7 @@ func (g *verifPlGen) oneCase(malformed bool, maxEvents int) {
 	g.nextK = map[uint64]uint64{}
 	g.props = map[[2]uint64][]uint64{}
 	g.known = map[uint64][]uint64{}
+	g.qval = map[[3]uint64]uint64{}
 	r0 := uint64(1 + rg.Intn(30))
 	p0 := uint64(0)
 	if rg.Chance(15) {
@@ -1247,7 +1320,7 @@ func (g *verifPlGen) oneCase(malformed bool, maxEvents int) {
 			break
 		}
 		if rg.Chance(10) {
-			g.emit("persist " + []string{"msgp", "reflect"}[rg.Intn(2)])
+			g.persist()
 		}
 		if rg.Chance(5) {
 			g.emit("dump")
@@ -1255,8 +1328,21 @@ func (g *verifPlGen) oneCase(malformed bool, maxEvents int) {
 	}
 	if g.alive() {
 		g.emit("dump")
-		g.emit("persist " + []string{"msgp", "reflect"}[rg.Intn(2)])
+		g.persist()
 	}
+}
+
+// persist the current state with the action list of the last event — except when that list holds a stageDigest action:
+// decode's zeroAction has no case for it (it panics "bad action type: stageDigest"); the service never writes such a list
+// (it persists only lists containing an attest, and no handle call emits both), so the op then passes no actions.
+func (g *verifPlGen) persist() {
+	mode := "act"
+	for _, a := range g.x.last {
+		if a.t() == stageDigest {
+			mode = "noact"
+		}
+	}
+	g.emit("persist " + []string{"msgp", "reflect"}[g.rng.Intn(2)] + " " + mode)
 }
 
 func (g *verifPlGen) payloadVerified(v uint64) string {
@@ -1281,6 +1367,8 @@ func (g *verifPlGen) batch(R, P, S uint64) []string {
 		if v == 0 {
 			v = g.someValue(R, P)
 		}
+		v = g.quorumValue(R, P, 1, func() uint64 { return v })
+		g.quorumValue(R, P, 2, func() uint64 { return v })
 		lines = append(lines, g.quorumLines(R, P, 1, v, 0)...)
 		if rg.Chance(25) {
 			lines = append(lines, g.payloadVerified(v))
@@ -1297,18 +1385,20 @@ func (g *verifPlGen) batch(R, P, S uint64) []string {
 			lines = append(lines, fmt.Sprintf("t %d", rg.U64()))
 		}
 	case c < 47:
-		lines = g.quorumLines(R, P, 1, g.someValue(R, P), rg.Intn(3)*rg.Intn(2))
+		lines = g.quorumLines(R, P, 1, g.quorumValue(R, P, 1, func() uint64 { return g.someValue(R, P) }), rg.Intn(3)*rg.Intn(2))
 	case c < 56:
-		lines = g.quorumLines(R, P, 2, g.someValue(R, P), rg.Intn(3)*rg.Intn(2))
+		lines = g.quorumLines(R, P, 2, g.quorumValue(R, P, 2, func() uint64 { return g.quorumValue(R, P, 1, func() uint64 { return g.someValue(R, P) }) }), rg.Intn(3)*rg.Intn(2))
 	case c < 64: // recovery: next votes for bottom or a value, in this or the previous period
 		s := uint64(3 + rg.Intn(3))
 		if S > 3 && rg.Chance(60) {
 			s = S
 		}
-		v := uint64(0)
-		if rg.Chance(45) {
-			v = g.someValue(R, P)
-		}
+		v := g.quorumValue(R, P, s, func() uint64 {
+			if rg.Chance(45) {
+				return g.someValue(R, P)
+			}
+			return 0
+		})
 		lines = g.quorumLines(R, P, s, v, rg.Intn(2)*rg.Intn(2))
 	case c < 73: // bundles: soft / cert / next, current, future (fast-forward) or stale period
 		s := []uint64{1, 2, 3, 3, 4, 2}[rg.Intn(6)]
@@ -1478,7 +1568,7 @@ func TestVerifPlayer(t *testing.T) {
 		return
 	}
 	g := &verifPlGen{rng: vh.NewRng(vh.Seed()), x: x, out: out}
-	budget := vh.Budget(3200, 120000)
+	budget := vh.Budget(12000, 400000)
 	malformedBudget := budget / 6
 	for g.n < budget-malformedBudget {
 		g.oneCase(false, 60+g.rng.Intn(140))
